@@ -358,6 +358,42 @@ theorem hsSel_lk (a : Agent) (p : Pair) (pd : Pending) : LK T0 now ex a (hsSel a
   · rw [h]; exact LK.refl _ _ _ _
   · rw [h]; exact select_lk a p.id
 
+/-- a controlled agent acting on a deferred nomination mark without a value has a selected pair afterwards -/
+theorem hsSel_cld_sel (b : Agent) (p : Pair) (pd : Pending) (hc : b.controlling = false) (hn : p.nomOnSuccess = true)
+    (hd : p.deferredNom = none) : (hsSel b p pd).1.selected.isSome = true := by
+  unfold hsSel
+  simp only [hc, hn, hd, if_true, Bool.false_eq_true, if_false]
+  split
+  · rw [select_selected]; rfl
+  · rename_i sp hsp
+    have hsome : b.selected.isSome = true := by
+      cases hs : b.selected with
+      | none => rw [hs] at hsp; cases hsp
+      | some x => rfl
+    split
+    · exact hsome
+    · split
+      · rw [select_selected]; rfl
+      · exact hsome
+
+/-- the bookkeeping after the decision: the answered value is no field the frame reads; the deferred mark is
+cleared only when it has been acted upon — then a pair is selected -/
+theorem hsFin_lk (a2 : Agent) (p : Pair) (pd : Pending) (x : Agent)
+    (hx : LInv x → a2.controlling = false → p.nomOnSuccess = true → x.selected.isSome = true) :
+    LK T0 now ex x (hsFin a2 p pd x) := by
+  unfold hsFin
+  split
+  · split
+    · exact LK.of_eq rfl rfl rfl rfl rfl rfl rfl rfl rfl rfl rfl
+    · exact LK.refl _ _ _ _
+  · rename_i hc
+    split
+    · rename_i hn
+      exact LK.modPair_sel x p.id hsClear (fun _ => rfl) (fun _ => rfl) (fun _ => rfl)
+        (fun _ _ _ _ => Or.inr fun hi => hx hi (by simpa using hc) hn) (fun _ _ _ h => h) (fun _ _ _ _ => rfl)
+        (fun _ _ _ _ h => Or.inl h)
+    · exact LK.refl _ _ _ _
+
 theorem handleSuccess_lk (a : Agent) (m : Msg) (l r : Cand) (src : Nat) :
     LK T0 now (some m.tid) a (a.handleSuccess now m l r src).1 := by
   rw [handleSuccess_eq]
@@ -374,9 +410,21 @@ theorem handleSuccess_lk (a : Agent) (m : Msg) (l r : Cand) (src : Nat) :
     · split
       · exact h0
       · rename_i p hfind
-        refine LK.trans (LK.trans (LK.trans h0 (hsMark_lk a1 l r p pd hfind)) (hsSel_lk _ p pd)) ?_
-        exact LK.modPair_keep _ p.id (fun p => { p with respRecv := p.respRecv + 1 }) (fun _ => rfl) (fun _ => rfl)
-          (fun _ => rfl) (fun _ => rfl) (fun _ => rfl) (fun _ => rfl)
+        refine LK.trans (LK.trans (LK.trans (LK.trans h0 (hsMark_lk a1 l r p pd hfind)) (hsSel_lk _ p pd))
+          (hsFin_lk (a1.modPair p.id (hsMark pd)) p pd _ ?_)) ?_
+        · intro hi hc hn
+          have hq : hsMark pd p ∈ (a1.modPair p.id (hsMark pd)).checklist := by
+            have := mem_updPair_of_mem (id := p.id) (f := hsMark pd) (findPair_mem hfind)
+            simp only [beq_self_eq_true, if_true] at this
+            exact this
+          have hd : p.deferredNom = none := by
+            rcases hsSel_cases (a1.modPair p.id (hsMark pd)) p pd with e | ⟨e, _⟩
+            · rw [e] at hi; exact hi.noDefer (hsMark pd p) hq
+            · rw [e] at hi
+              exact hi.noDefer { hsMark pd p with nominated := true } (select_mem (id := p.id) hq rfl)
+          exact hsSel_cld_sel _ p pd hc hn hd
+        · exact LK.modPair_keep _ p.id (fun p => { p with respRecv := p.respRecv + 1 }) (fun _ => rfl) (fun _ => rfl)
+            (fun _ => rfl) (fun _ => rfl) (fun _ => rfl) (fun _ => rfl)
 
 /-! ## the request handlers -/
 
